@@ -64,6 +64,8 @@ type uStep struct {
 	Par   []uStep  `json:"par"` // steps to run concurrently (a == "par")
 	Rep   int      `json:"rep"` // repeat the step this many times (sequence numbers and ids advance)
 	Seq   []uStep  `json:"seq"` // a == "seq": run these steps in order (one role of a concurrent program)
+	Inc   int      `json:"inc"` // sequence-number increment per repetition (default 1; 0 is written as -1)
+	Gap   int      `json:"gap"` // microseconds to sleep between repetitions
 }
 
 type uScript struct {
@@ -72,6 +74,7 @@ type uScript struct {
 	Watch   int       `json:"watch"` // watchdog per call in ms (default 3000)
 	Settle  int       `json:"settle"`
 	Both    bool      `json:"both"` // C13: run twice (fresh buffers / reused and scribbled buffers) and compare emissions
+	NoWire  bool      `json:"nowire"` // C12: do not log packets reaching the transport side (long runs)
 }
 
 var errUInner = errors.New("verif: injected transport failure")
@@ -143,6 +146,7 @@ type uEnv struct {
 	nextErr bool
 	nextRC  []byte
 	pacing  *pacing.InterceptorFactory
+	nowire   bool
 	quiet    bool  // collect emissions only, log nothing
 	scribble bool  // overwrite caller-owned buffers as soon as a call has returned
 	emis     []vfM // everything the chain emitted or recorded that derives from packet contents
@@ -157,6 +161,9 @@ type uSyncBuf struct {
 func (s *uSyncBuf) Write(p []byte) (int, error) {
 	s.mu.Lock()
 	defer s.mu.Unlock()
+	if s.b.Len() > 1<<16 { // the text itself is not examined: keep the harness's own footprint constant
+		s.b.Reset()
+	}
 
 	return s.b.Write(p)
 }
@@ -182,9 +189,11 @@ func uEmis(kind string, h *rtp.Header, pl []byte, keepSeq bool) vfM {
 }
 
 func (e *uEnv) dumpRTP(pkt *rtp.Packet, _ interceptor.Attributes) ([]byte, error) {
-	e.mu.Lock()
-	e.emis = append(e.emis, uEmis("dump", &pkt.Header, pkt.Payload, pkt.PayloadType == 96))
-	e.mu.Unlock()
+	if e.quiet {
+		e.mu.Lock()
+		e.emis = append(e.emis, uEmis("dump", &pkt.Header, pkt.Payload, pkt.PayloadType == 96))
+		e.mu.Unlock()
+	}
 
 	return nil, nil
 }
@@ -360,7 +369,10 @@ func (e *uEnv) wireRTP(s uint32) interceptor.RTPWriter {
 		e.mu.Lock()
 		defer e.mu.Unlock()
 		app := h == e.curHdr
-		rec := vfPkt(h, pl)
+		var rec vfM
+		if !e.nowire || e.quiet {
+			rec = vfPkt(h, pl)
+		}
 		if app {
 			if e.failNow {
 				if !e.quiet {
@@ -369,11 +381,13 @@ func (e *uEnv) wireRTP(s uint32) interceptor.RTPWriter {
 
 				return 0, errUInner
 			}
-			e.wireApp = append(e.wireApp, rec)
-		} else {
+			if rec != nil {
+				e.wireApp = append(e.wireApp, rec)
+			}
+		} else if e.quiet {
 			e.emis = append(e.emis, uEmis("rtp", h, pl, h.SSRC == s && h.PayloadType == 96))
 		}
-		if !e.quiet {
+		if !e.quiet && !e.nowire {
 			e.out.Emit(vfM{"a": "wire", "t": "rtp", "s": s, "app": app, "failed": false, "closed": e.closed, "pkt": rec, "sum": []vfM{}})
 		}
 
@@ -396,7 +410,7 @@ func (e *uEnv) wireRTCP() interceptor.RTCPWriter {
 		if app {
 			e.wireApp = append(e.wireApp, vfM{"n": len(pkts)})
 		}
-		if !e.quiet {
+		if !e.quiet && !e.nowire {
 			e.out.Emit(vfM{"a": "wire", "t": "rtcp", "s": 0, "app": app, "failed": false, "closed": e.closed, "pkt": vfM{}, "sum": uSumRTCP(pkts)})
 		}
 
@@ -548,7 +562,7 @@ func uInfo(st *uStep) *interceptor.StreamInfo {
 
 func uRun(t *testing.T, sc *uScript, out *vfWriter, scribble, quiet bool) []vfM { //nolint:gocognit,cyclop,maintidx
 	t.Helper()
-	e := &uEnv{t: t, out: out, dump: &uSyncBuf{}, nextRTP: map[uint32][]byte{}, scribble: scribble, quiet: quiet}
+	e := &uEnv{t: t, out: out, dump: &uSyncBuf{}, nextRTP: map[uint32][]byte{}, scribble: scribble, quiet: quiet, nowire: sc.NoWire}
 	kinds := []string{}
 	reg := &interceptor.Registry{}
 	for _, m := range sc.Members {
@@ -695,8 +709,12 @@ func uRun(t *testing.T, sc *uScript, out *vfWriter, scribble, quiet bool) []vfM 
 			}
 			h, pl := vfMakePacket(st.S, st.W, st.ID, st.Len, st.Shape)
 			h.PayloadType = 96
-			ev["pkt"] = vfPkt(h, pl)
-			e.emit(vfM{"a": "pre", "op": "wrtp", "s": st.S, "w": st.W, "tw": -1, "fail": st.Fail})
+			if !e.nowire {
+				ev["pkt"] = vfPkt(h, pl)
+			}
+			if !e.nowire {
+				e.emit(vfM{"a": "pre", "op": "wrtp", "s": st.S, "w": st.W, "tw": -1, "fail": st.Fail})
+			}
 			e.mu.Lock()
 			e.curHdr, e.failNow, e.wireApp = h, st.Fail, nil
 			e.mu.Unlock()
@@ -783,7 +801,9 @@ func uRun(t *testing.T, sc *uScript, out *vfWriter, scribble, quiet bool) []vfM 
 				}
 				rawb, _ = (&rtp.Packet{Header: *h, Payload: pl}).Marshal()
 			}
-			e.emit(vfM{"a": "pre", "op": "rrtp", "s": st.S, "w": st.W, "tw": st.Tw, "fail": st.Fail})
+			if !e.nowire {
+				e.emit(vfM{"a": "pre", "op": "rrtp", "s": st.S, "w": st.W, "tw": st.Tw, "fail": st.Fail})
+			}
 			e.mu.Lock()
 			e.nextRTP[st.S], e.nextErr = rawb, st.Fail
 			e.mu.Unlock()
@@ -872,6 +892,22 @@ func uRun(t *testing.T, sc *uScript, out *vfWriter, scribble, quiet bool) []vfM 
 			ev["same"] = n <= len(buf) && n >= 0 && bytes.Equal(buf[:min(n, len(buf))], rawb)
 		case "wait":
 			time.Sleep(time.Duration(st.Ms) * time.Millisecond)
+		case "heap": // C12: live heap after forced collection
+			time.Sleep(time.Duration(st.Ms) * time.Millisecond)
+			if st.Kind == "final" { // the application drops the closed interceptor: everything it held must become collectable
+				smu.Lock()
+				chain, rtcpW, rtcpR = nil, nil, nil
+				local, remote = map[uint32]*uBound{}, map[uint32]*uBound{}
+				smu.Unlock()
+				e.mu.Lock()
+				e.probes, e.pacing = nil, nil
+				e.mu.Unlock()
+			}
+			var ms runtime.MemStats
+			runtime.GC()
+			runtime.GC()
+			runtime.ReadMemStats(&ms)
+			ev["n"], ev["len"] = int(ms.HeapAlloc), int(ms.HeapObjects)
 		case "seq":
 			for i := range st.Seq {
 				sub := st.Seq[i]
@@ -906,10 +942,19 @@ func uRun(t *testing.T, sc *uScript, out *vfWriter, scribble, quiet bool) []vfM 
 						if res[i]["blocked"] == true || res[i]["panic"] != "" {
 							break
 						}
-						sub.W++
+						inc := sub.Inc
+						if inc == 0 {
+							inc = 1
+						} else if inc < 0 {
+							inc = 0
+						}
+						sub.W += uint16(inc) //nolint:gosec
 						sub.ID++
 						if sub.Tw >= 0 {
-							sub.Tw++
+							sub.Tw = (sub.Tw + inc) % 65536
+						}
+						if sub.Gap > 0 {
+							time.Sleep(time.Duration(sub.Gap) * time.Microsecond)
 						}
 					}
 				}(i)
@@ -1000,7 +1045,9 @@ func uRun(t *testing.T, sc *uScript, out *vfWriter, scribble, quiet bool) []vfM 
 		n, first := uLeaked(baseLeak)
 		end["leaked"], end["stack"] = n, first
 	} else if !aborted {
-		_, _ = uGuard(limit, func() { _ = chain.Close() })
+		if chain != nil {
+			_, _ = uGuard(limit, func() { _ = chain.Close() })
+		}
 	}
 	e.emit(end)
 	_ = io.Discard
